@@ -88,6 +88,18 @@ def run(ctx):
         ops = [["check", first]] + [[rng.choice(["validate", "validate", "example", "check"]), rng.choice([0, 1])] for _ in range(rng.randint(2, 6))]
         ops = [o + [rng.randrange(len(docs))] if o[0] == "validate" else o for o in ops]
         cases.append({"schemas": schemas, "shared_types": shared, "docs": docs, "enums": ["[1]"], "regexes": ["/a/"], "ops": ops, "cls": "shared-allof-private-parent"})
+    # shared PARENT types: one schema inherits from two shared types with allOf (own keys none or optional), another uses the first parent directly:
+    # compiling the heir must not change what the parent itself requires
+    for _ in range(40 if quick else 400):
+        own = rng.choice(["\n", '\n  "own": 1 // {optional: true}\n'])
+        parents = rng.choice([["@A", "@B"], ["@B", "@A"], ["@A", "@B", "@C"]])
+        shared = [["@A", '{\n  "a": 1\n}'], ["@B", '{\n  "b": 2\n}'], ["@C", '{\n  "c": 3 // {optional: true}\n}']]
+        schemas = [{"text": "{ // {allOf: %s}%s}" % (json.dumps(parents), own), "types": []}, {"text": rng.choice(["@A", '{\n  "k": @A\n}', "@B"]), "types": []}]
+        wrap = (lambda d: d) if schemas[1]["text"].startswith("@") else (lambda d: '{"k":%s}' % d)
+        docs = ['{"a":1,"b":2}', wrap('{"a":1}'), wrap('{"b":2}'), wrap('{"a":1,"b":2}'), '{"a":1,"b":2,"c":3}']
+        ops = [[rng.choice(["check", "validate", "validate", "example"]), rng.choice([0, 1])] for _ in range(rng.randint(3, 8))]
+        ops = [o + [rng.randrange(len(docs))] if o[0] == "validate" else o for o in ops]
+        cases.append({"schemas": schemas, "shared_types": shared, "docs": docs, "enums": ["[1]"], "regexes": ["/a/"], "ops": ops})
     # error values inside unnamed types (or rule-sets, or-shortcuts): every field a caller can read is the same in every run
     for text, types in (('{\n  "a": @A\n}', [["@A", '1 // {or: [{type: "@X", nullable: true}, "string"]}']]), ('{\n  "k": @B | @C\n}', [["@B", "1"]]),
                         ('{\n  "a": @B\n}', [["@B", '{\n  "c": @X | @Y\n}']])):
@@ -204,6 +216,43 @@ def run(ctx):
             c = json.loads(l)
             ctx.report("the same schema built and checked %d times gives %d different results: %s; types %r" % (c["n"], len(r), [x[:60] for x in r][:3], [t[1][:60] for t in c["schemas"][0]["types"]][:4]),
                        "c11rep:" + l, {"case": c, "distinct_results": r}, case={"op": ["repeatcheck"]})
+    # the order of set-up calls and of earlier queries (schema harness): equal inputs, equal results
+    #  - a type object queried before it is added anywhere (it is loaded earlier; unnamed types of two types in files of the same name);
+    #  - AddRule after a query that loaded the schema: either it reports an error or the rule counts (the AddRule-first history is the reference);
+    #  - an operation on a type object itself (failing: a parent of its allOf is known to the root only) before the root is checked.
+    TWO = [["@A", '1 // {or: [{type: "@X", nullable: true}, "string"]}'], ["@B", '1 // {or: [{type: "@Y", nullable: true}, "string"]}']]
+    ALLOF = {"schema": "@A", "roottypes": True, "types": [["@A", '{ // {allOf: ["@P", "@Q"]}\n}'], ["@P", '{"p": 1}'], ["@Q", '{"q": 2}']], "private": [["@A", "@P", '{"p": 1}']]}
+    ALLOF2 = {"schema": '{\n  "x": @A\n}', "roottypes": True, "types": [["@A", '{ // {allOf: ["@Q", "@P"]}\n  "own": 1\n}'], ["@P", '{"p": 1}'], ["@Q", '{"q": 2}']], "private": [["@A", "@P", '{"p": 1}']]}
+    order_cases = []
+    for tf in ("types.jst", "api.jst"):
+        for root in ('{"a": @A, "b": @B}', '{"b": @B, "a": @A}'):
+            ref = {"schema": root, "type_file": tf, "types": TWO, "ops": [["checkfull"]]}
+            for pre in (["@B"], ["@A"], ["@B", "@A"], ["@A", "@B"]):
+                order_cases.append(("a type object queried before it is added", ref, dict(ref, preload=pre), 0, 0))
+    for first in (["used"], ["ast"], ["len"], ["example"], ["check"], ["addtype", "@T", "1"], ["validate", "1"]):
+        for schema, rule in (("1 // {enum: @E}", "[1, 2]"), ('{\n  "k": "a" // {enum: @E}\n}', '["a", "b"]')):
+            ref = {"schema": schema, "ops": [["addrule", "@E", rule], ["checkfull"]]}
+            order_cases.append(("AddRule after %s" % first[0], ref, {"schema": schema, "ops": [first, ["addrule", "@E", rule], ["checkfull"]]}, 1, 2))
+    for base in (ALLOF, ALLOF2):
+        for tyop in ("typecheck", "typeexample", "typeast", "typeused"):
+            order_cases.append(("%s on the type object before the root is checked" % tyop, dict(base, ops=[["checkfull"]]), dict(base, ops=[[tyop, "@A"], ["checkfull"]]), 0, 1))
+    ol = []
+    for _, ref, alt, _, _ in order_cases:
+        ol += [json.dumps(ref), json.dumps(alt)]
+    oo = vc.impl_isolating(["schema"], ol, 3)
+    for i, (what, ref, alt, ri, ai) in enumerate(order_cases):
+        ctx.evaluations += 1
+        r1, r2 = json.loads(oo[2 * i]), json.loads(oo[2 * i + 1])
+        if len(r1) <= ri or len(r2) <= ai:
+            ctx.report("machinery: unexpected harness output %s / %s" % (oo[2 * i][:100], oo[2 * i + 1][:100]), "c11order:" + ol[2 * i + 1], {"case": alt}, no_input=True)
+            continue
+        if what.startswith("AddRule") and r2[ai - 1] != "ok":
+            continue        # AddRule refused: the caller knows the rule does not count
+        if r1[ri] != r2[ai] and len(ctx.violations) < 40:
+            dec = lambda x: (x.split("#")[0] + " " + bytes.fromhex(x.split("#")[1]).decode("utf-8", "replace").split("\n")[0]) if "#" in x else x
+            info = {"what": what, "reference": ref, "history": alt, "reference_result": dec(r1[ri]), "history_result": dec(r2[ai]), "op": ["order"]}
+            ctx.report("%s: Check says %s; without it %s (schema %r)" % (what, dec(r2[ai])[:120], dec(r1[ri])[:120], alt["schema"][:60]), "c11order:" + ol[2 * i + 1], info, case=info)
+    ctx.extra["order_cases"] = len(order_cases)
     ctx.extra["repeat_cases"] = nrep
     ctx.extra["histories"] = len(cases)
     ctx.extra["op_histogram"] = {}
